@@ -10,12 +10,17 @@
 (*     compute from the observed state before the step: a difference is    *)
 (*     printed as an "@@D" line (drift), never a failure.                   *)
 (*                                                                         *)
-(* Trace file: line 1 {"e":"Header","names":[all names, strcasecmp order]},*)
-(* then histories: {"e":"Reset",...}, per command a "begin" and an "end"   *)
-(* line, and {"e":"exit","st":..,"sig":..} when the process is gone.  A    *)
-(* "begin" without "end" (crash, sanitizer abort), a non-zero exit status  *)
-(* or any other shape no action consumes makes the history `stuck`: it is   *)
-(* skipped up to the next Reset so that one run judges every history.      *)
+(* Trace file: a TREE of executions.  Line 1 is                              *)
+(*   {"e":"Header","names":[all names, strcasecmp order],"kids":[[..],..]}  *)
+(* every other line is the "begin" or the "end" line of one command.  A     *)
+(* node of the tree is a command executed in the state its parent left      *)
+(* (the harness forks at every branching point); it is identified by the    *)
+(* number of its "begin" line, the root (nothing executed yet) by 1, and    *)
+(* kids[i] lists the nodes whose parent is node i (computed by the driver   *)
+(* from the "n"/"par" fields, a purely syntactic projection).  Every path   *)
+(* from the root is one history; TLC's breadth-first search walks the tree  *)
+(* and judges every edge once.  A "begin" that is not followed by its "end" *)
+(* (crash, sanitizer abort) fails C15_Completes; nothing hangs below it.    *)
 (*                                                                         *)
 (* Variables of Conf.tla reused here: live = the tree observed after the   *)
 (* last step, reg = registrations seen, last = <<>> or <<last good file>>. *)
@@ -29,9 +34,11 @@ TraceNameOrd == LET names == TraceLog[1].names
 NoOpts == <<>>
 NoKeys == {}
 
-VARIABLES l,        \* next line to consume
+VARIABLES l,        \* the node we are at: number of its "begin" line, 1 = root
           failed    \* names of the contract conjuncts the step just taken violates
 tvars == <<l, failed, live, reg, last, phase, ev, hooks, hist>>
+
+Kids == TraceLog[1].kids
 
 -----------------------------------------------------------------------------
 (* reading the harness's records *)
@@ -53,47 +60,34 @@ FileOf(b) ==
   LET f == b.f
   IN [k \in {KeyOfRec(f[j]) : j \in 1..Len(f)} |-> f[CHOOSE j \in 1..Len(f) : KeyOfRec(f[j]) = k].v]
 
-IsPair(i) == /\ i + 1 <= N
-             /\ TraceLog[i].e = "begin" /\ TraceLog[i + 1].e = "end"
-             /\ TraceLog[i].n = TraceLog[i + 1].n
+(* line c is a "begin" and line c + 1 its "end" *)
+IsPair(c) == /\ c + 1 <= N
+             /\ TraceLog[c].e = "begin" /\ TraceLog[c + 1].e = "end"
+             /\ TraceLog[c].n = TraceLog[c + 1].n
 IsBad(b) == "bad" \in DOMAIN b
 
 Names(S) == {c[1] : c \in {c \in S : c[2]}}      \* S: set of <<name, holds>>; the names that do not hold
 
-Report(tag, i, what) == what = {} \/ PrintT(<<tag, i, what>>)
+Report(tag, i, what) == IF what = {} THEN TRUE ELSE PrintT(<<tag, i, what>>)   \* (a disjunction would branch)
 
 -----------------------------------------------------------------------------
 TInit ==
-  /\ l = 2
+  /\ l = 1
   /\ failed = {}
   /\ live = EmptyTree /\ reg = <<>> /\ last = <<>>
   /\ phase = 0 /\ ev = [op |-> "trace"] /\ hooks = <<>> /\ hist = <<>>
 
 Quiet == UNCHANGED <<phase, ev, hooks, hist>>
 
-Reset ==
-  /\ l <= N /\ TraceLog[l].e = "Reset"
-  /\ live' = EmptyTree /\ reg' = <<>> /\ last' = <<>>
+Dump(c) ==
+  /\ IsPair(c) /\ TraceLog[c].op = "dump"
   /\ failed' = {}
-  /\ l' = l + 1
-  /\ Quiet
-
-Exit ==
-  /\ l <= N /\ TraceLog[l].e = "exit" /\ TraceLog[l].st = 0 /\ TraceLog[l].sig = 0
-  /\ failed' = {}
-  /\ l' = l + 1
   /\ UNCHANGED <<live, reg, last>> /\ Quiet
 
-Dump ==
-  /\ IsPair(l) /\ TraceLog[l].op = "dump"
-  /\ failed' = {}
-  /\ l' = l + 2
-  /\ UNCHANGED <<live, reg, last>> /\ Quiet
-
-RegisterStep ==
-  /\ IsPair(l) /\ TraceLog[l].op = "reg"
-  /\ LET b == TraceLog[l]
-         e == TraceLog[l + 1]
+RegisterStep(c) ==
+  /\ IsPair(c) /\ TraceLog[c].op = "reg"
+  /\ LET b == TraceLog[c]
+         e == TraceLog[c + 1]
          k == KeyOfRec(b)
          o == [d |-> b.d, s |-> b.s]
          post == TreeOf(e)
@@ -104,17 +98,16 @@ RegisterStep ==
                           <<"order", DumpKeys(e) # DumpOrder(DOMAIN post, <<>>)>>,
                           <<"hooks", e.hooks # <<>> >> })
      IN /\ failed' = bad
-        /\ Report("@@V", l, bad)
-        /\ Report("@@D", l, IF bad = {} THEN drift ELSE {})
+        /\ Report("@@V", c, bad)
+        /\ Report("@@D", c, IF bad = {} THEN drift ELSE {})
         /\ live' = post
         /\ reg' = reg2
-  /\ l' = l + 2
   /\ UNCHANGED last /\ Quiet
 
-LoadStep ==
-  /\ IsPair(l) /\ TraceLog[l].op = "load" /\ ~IsBad(TraceLog[l]) /\ TraceLog[l + 1].rc = 0
-  /\ LET b == TraceLog[l]
-         e == TraceLog[l + 1]
+LoadStep(c) ==
+  /\ IsPair(c) /\ TraceLog[c].op = "load" /\ ~IsBad(TraceLog[c]) /\ TraceLog[c + 1].rc = 0
+  /\ LET b == TraceLog[c]
+         e == TraceLog[c + 1]
          file == FileOf(b)
          post == TreeOf(e)
          hk == HookSeq(e)
@@ -129,54 +122,45 @@ LoadStep ==
                           <<"order", DumpKeys(e) # DumpOrder(DOMAIN post, <<>>)>>,
                           <<"hooks", pred.h # hk>> })
      IN /\ failed' = bad
-        /\ Report("@@V", l, bad)
-        /\ Report("@@D", l, IF bad = {} THEN drift ELSE {})
+        /\ Report("@@V", c, bad)
+        /\ Report("@@D", c, IF bad = {} THEN drift ELSE {})
         /\ live' = post
         /\ last' = <<file>>
-  /\ l' = l + 2
   /\ UNCHANGED reg /\ Quiet
 
 (* conf_read() reported an error: the last good state stays.  (A file that was meant to be good *)
 (* and does not load is counted by the driver; the contract only speaks about successful loads.) *)
-FailedLoadStep ==
-  /\ IsPair(l) /\ TraceLog[l].op = "load" /\ TraceLog[l + 1].rc # 0
-  /\ LET e == TraceLog[l + 1]
+FailedLoadStep(c) ==
+  /\ IsPair(c) /\ TraceLog[c].op = "load" /\ TraceLog[c + 1].rc # 0
+  /\ LET e == TraceLog[c + 1]
          post == TreeOf(e)
          bad == Names({ <<"C15_LastGood", ~(NoDuplicates(e) /\ FailedLoadOK(reg, live, post, HookSeq(e)))>> })
          drift == Names({ <<"tree", live # post>> })
      IN /\ failed' = bad
-        /\ Report("@@V", l, bad)
-        /\ Report("@@D", l, IF bad = {} THEN drift ELSE {})
+        /\ Report("@@V", c, bad)
+        /\ Report("@@D", c, IF bad = {} THEN drift ELSE {})
+        /\ IF IsBad(TraceLog[c]) THEN TRUE ELSE PrintT(<<"@@U", c>>)     \* a file that was meant to be good
         /\ live' = post
-  /\ l' = l + 2
   /\ UNCHANGED <<reg, last>> /\ Quiet
 
-Consumable ==
-  /\ l <= N
-  /\ \/ TraceLog[l].e = "Reset"
-     \/ TraceLog[l].e = "exit" /\ TraceLog[l].st = 0 /\ TraceLog[l].sig = 0
-     \/ IsPair(l) /\ TraceLog[l].op \in {"dump", "reg"}
-     \/ IsPair(l) /\ TraceLog[l].op = "load" /\ (TraceLog[l + 1].rc # 0 \/ ~IsBad(TraceLog[l]))
+Consumable(c) ==
+  \/ IsPair(c) /\ TraceLog[c].op \in {"dump", "reg"}
+  \/ IsPair(c) /\ TraceLog[c].op = "load" /\ (TraceLog[c + 1].rc # 0 \/ ~IsBad(TraceLog[c]))
 
-(* a step that did not complete (crash, sanitizer abort: "begin" without "end"), a process that *)
-(* did not exit cleanly, a deliberately broken file that loaded: give the history up            *)
-NextReset(i) == IF \E j \in i..N : TraceLog[j].e = "Reset"
-                THEN CHOOSE j \in i..N : TraceLog[j].e = "Reset" /\ \A m \in i..(j - 1) : TraceLog[m].e # "Reset"
-                ELSE N + 1
-Stuck ==
-  /\ l <= N /\ ~Consumable
+(* the command did not complete (crash, sanitizer abort: "begin" without "end"), or a deliberately *)
+(* broken file loaded: the history ends here                                                        *)
+Stuck(c) ==
+  /\ ~Consumable(c)
   /\ failed' = {"C15_Completes"}
-  /\ PrintT(<<"@@V", l, {"C15_Completes"}>>)
-  /\ l' = NextReset(l + 1)
+  /\ PrintT(<<"@@V", c, {"C15_Completes"}>>)
   /\ UNCHANGED <<live, reg, last>> /\ Quiet
 
-TNext == Reset \/ Exit \/ Dump \/ RegisterStep \/ LoadStep \/ FailedLoadStep \/ Stuck
+TNext == \E j \in 1..Len(Kids[l]) :
+           LET c == Kids[l][j]
+           IN /\ l' = c
+              /\ (Dump(c) \/ RegisterStep(c) \/ LoadStep(c) \/ FailedLoadStep(c) \/ Stuck(c))
 
 TraceSpec == TInit /\ [][TNext]_tvars
-
-(* the whole file was consumed: checked by the driver from this line *)
-Done == l > N => PrintT(<<"@@END", l>>)
-AtEnd == l <= N \/ PrintT(<<"@@END", l>>)
 
 C15_Completes   == "C15_Completes" \notin failed
 C15_Values      == "C15_Values" \notin failed
